@@ -219,6 +219,9 @@ def marshalling_python(ctx, rid, fn):
 
 def rules(ctx):
     P, R = ctx.prog, ctx.res
+    from .C14 import derived_fields
+    ctx.rule('R11.10', "a field of model objects outside the frozen bookkeeping fields that is written together with the terms / a bookkeeping field is written by every other mutator of that state (no stale memo)", floor=1)
+    derived_fields(ctx, 'R11.10')
     ctx.rule('R11.1', "num_anneals <= 0 returns an empty AnnealResults before anything else; boolean functions delegate", floor=4)
     ctx.rule('R11.2', "every result value is the C energy + the marshalled model's offset (offset alone when N == 0)", floor=5)
     ctx.rule('R11.3', "N, marshalled model and reverse mapping derive from one object per branch", floor=8)
@@ -387,6 +390,65 @@ def rules(ctx):
     # ---------------------------------------------------------------- R11.8 (C)
     state_value_set(ctx, 'R11.8')
     energy_loops(ctx, 'R11.9')
+    layout_agreement(ctx, 'R11.6')
+
+
+def layout_agreement(ctx, rid):
+    """Row-major buffers: every function that indexes a buffer as a*L + b uses one row length L for it, and across a call
+    the callee's row length parameter receives the caller's row length (writer and readers agree on the layout)."""
+    C = ctx.cprog
+    nsp = lambda t: re.sub(r'\s+', '', t or '')
+    sites = {}
+    for f in C.funcs.values():
+        for s_ in f.subs:
+            idx = nsp(s_['index'])
+            m = re.fullmatch(r'\(?(\w+)\*(\w+)\)?\+(\w+)', idx) or re.fullmatch(r'(\w+)\+\(?(\w+)\*(\w+)\)?', idx)
+            if not m:
+                continue
+            if idx[0] != '(' and '+' in idx and idx.index('+') < idx.index('*'):
+                b_, x1, x2 = m.groups()
+            else:
+                x1, x2, b_ = m.groups()
+            lv = {l['var'] for l in s_['loops']}
+            L = [x for x in (x1, x2) if x not in lv]
+            if len(L) != 1:
+                continue
+            sites.setdefault(f.name, {}).setdefault(nsp(s_['base']), []).append((L[0], s_))
+    n = 0
+    for fname, bases in sorted(sites.items()):
+        f = C.funcs[fname]
+        for base, lst in sorted(bases.items()):
+            Ls = sorted({l for l, _ in lst})
+            n += 1
+            ctx.inst(rid, (f.unit, fname), 'row length of %s in %s' % (base, fname), len(Ls) == 1,
+                     "%d row-major accesses, all with row length %s" % (len(lst), Ls[0]) if len(Ls) == 1 else
+                     "`%s` is indexed with different row lengths %s in one function: rows written are not the rows read" % (base, Ls))
+    for fname in sorted(sites):
+        f = C.funcs[fname]
+        for c in f.calls:
+            g = C.funcs.get(c['callee'])
+            if g is None or g.name not in sites:
+                continue
+            gp = [p for p, _ in g.params]
+            if len(gp) != len(c['argtxt']):
+                continue
+            for i, a in enumerate(c['argtxt']):
+                X = nsp(a)
+                if X in sites[fname] and gp[i] in sites[g.name]:
+                    Lf = sorted({l for l, _ in sites[fname][X]})
+                    Lg = sorted({l for l, _ in sites[g.name][gp[i]]})
+                    if len(Lf) != 1 or len(Lg) != 1 or Lg[0] not in gp:
+                        continue
+                    got = nsp(c['argtxt'][gp.index(Lg[0])])
+                    ok = got == Lf[0]
+                    n += 1
+                    ctx.inst(rid, (f.unit, fname), '%s(... %s ...) row length' % (g.name, X), ok,
+                             "%s lays `%s` out in rows of %s and passes that as %s's row length `%s`" % (fname, X, Lf[0], g.name, Lg[0]) if ok else
+                             "%s indexes `%s` in rows of `%s` but %s reads it in rows of `%s` (= `%s` at the call): the "
+                             "two sides disagree on the layout, every anneal after the first reads other spins' values"
+                             % (fname, X, Lf[0], g.name, Lg[0], got))
+    if not n:
+        raise AnalysisError("layout_agreement: no row-major buffer access found")
 
 
 def state_value_set(ctx, rid):
